@@ -350,6 +350,11 @@ def run(ctx):
     else:
         ctx.ok('C19.4-deregister-after-loop', 'remove', 'outside the loop; every one of the %d exit edges leads through it' % len(exits), ctx.where(L, rems[0]))
 
+    # dependency: Atom::new
+    ctx.rule('C19.1-atom-interning', 'registered names and exit / monitor reasons arrive as atoms created with Atom::new: its interning tables agree entry by entry ("reason intact")', floor=1)
+    from ..etf import check_atom_tables
+    check_atom_tables(ctx, 'C19.1-atom-interning')
+
 
 def _outcomes(L, start, loop, recv_bb):
     """Outcomes {'continue','break'} reachable from `start`, propagating constant bools assigned on the
